@@ -51,7 +51,7 @@ def cfgOp (st : St) : List String → Option St
   | _ => none
 
 def evOp (l : Life) : List String → Option (Life × List Out)
-  | ["poolclose", p] => some (poolClose l p)
+  | "poolclose" :: p :: _ => some (poolClose l p)
   | ["pnotify", p, job] => some (inSess l fun s => onNotify s p job "t0" false)
   | ["msubmit", id, job] =>
     let nonce := String.ofList (List.replicate (8 - id.length) '0') ++ id
